@@ -477,6 +477,10 @@ namespace {
     }
 
     int g_how = 0, g_nthreads = 1;
+    // consumption of the further consumers of a shared pipeline: kept operation state, or (half of the time) the
+    // run's mode / start_detached, whose operation state is released from inside its own completion — then no
+    // consumer keeps the shared state alive past the last completion signal
+    int how_further(Rng& r) { return r.chance(1, 2) ? 0 : (r.chance(1, 2) ? 2 : g_how); }
     int thr(Rng& r) { return (int) r.below((uint64_t) g_nthreads); }
 
     void shape_then_chain(Rng& r)
@@ -563,7 +567,7 @@ namespace {
                     if (e.channel == CH_VALUE) e.value += 10 * (i + 1);
                     return e;
                 }(),
-                i == 0 ? g_how : 0, thr(r), (int) r.below(4), "split consumer");
+                i == 0 ? g_how : how_further(r), thr(r), (int) r.below(4), "split consumer");
         }
         probe("split.consumers", (uint64_t) n);
     }
@@ -604,7 +608,7 @@ namespace {
                 if (e.channel == CH_VALUE) e.value += 6;
                 return e;
             }(),
-            0, thr(r), (int) r.below(4), "split_tuple<1>");
+            how_further(r), thr(r), (int) r.below(4), "split_tuple<1>");
     }
     void shape_drop_op_state(Rng& r)
     {
@@ -622,7 +626,7 @@ namespace {
         ex::any_sender<Tok> a(L{&g_leaf[0]});
         auto b = a;    // both copies are started: the leaf completes twice
         add_consumer(std::move(a) | thenk(0), then_exp(leaf_exp(0), 0), g_how, thr(r), (int) r.below(3), "any_sender");
-        add_consumer(std::move(b) | thenk(1), then_exp(leaf_exp(0), 1), 0, thr(r), (int) r.below(3), "any_sender copy");
+        add_consumer(std::move(b) | thenk(1), then_exp(leaf_exp(0), 1), how_further(r), thr(r), (int) r.below(3), "any_sender copy");
     }
     void shape_unpack(Rng& r)
     {
@@ -712,7 +716,7 @@ namespace {
                 if (e.channel == CH_VALUE) e.value += 2;
                 return e;
             }(),
-            0, thr(r), (int) r.below(4), "split second consumer");
+            how_further(r), thr(r), (int) r.below(4), "split second consumer");
     }
     void shape_when_all_nested(Rng& r)
     {
